@@ -633,7 +633,7 @@ def run(chk):
     chk.bounds = {'generic row': 'one attribute pair symbolic at a time (fields as z3 strings), others concrete', 'lookup': ('tables of 1..3 rows' if chk.tier == 'quick' else 'tables of 1..5 rows') + ' with symbolic names and a symbolic query; lookup-edit-lookup histories',
                   'tables': 'every row (thorough) / every 7th row (quick) of the three bundled files enumerated through the real lookups'}
     chk.stubs = ['float() of a field -> accepted iff the text is in the language of Python float literals (no digit-group underscores), value = uninterpreted real per field, unchanged by strip(); int() -> uninterpreted integer per field',
-                 're.compile/match/fullmatch/search -> z3 regular expressions translated from the pattern by symex.symre (validated against Python re on sample strings)', 're.match of the isotope pattern -> z3 regex decomposition (digits* letters+ rest, maximal letters)',
+                 're.compile/match/fullmatch/search -> z3 regular expressions translated from the pattern by symex.symre (validated against Python re on sample strings)', 're.match / re.fullmatch of the isotope pattern -> z3 regex decomposition (digits* letters+ rest, maximal letters; rest empty for fullmatch)', 'int() of the captured digits -> object rendering as the canonical decimal text c (digits = 0* c, c in 0|[1-9][0-9]*)',
                  'bundled files -> fake files of symbolic lines (header lines made to look like matching data lines)']
     chk.axioms = []
     chk.assumptions = ['table cells are blank or decimal literals [+-]digits[.digits][e[+-]digits] without white space', 'fields contain no comma or newline', 'enumeration of the real tables is validation (exhaustive in thorough), not a solver result']
